@@ -344,3 +344,89 @@ example :
   all_goals decide
 
 end Haqq.Dao
+
+/-! ## Genesis: the books a DAO genesis leaves behind -/
+
+namespace Haqq.DaoGenesis
+
+/-- a genesis balance entry: (address, amount of one denomination) -/
+abbrev Entry := Nat × Nat
+
+/-- the balance store after InitGenesis wrote the entries in order: a later entry for an address overwrites an earlier one -/
+def store : List Entry → Nat → Nat
+  | [] => fun _ => 0
+  | e :: rest => fun a => if rest.any (·.1 == a) then store rest a else if a = e.1 then e.2 else 0
+
+/-- the recorded total: every listed entry is added -/
+def total (bs : List Entry) : Nat := (bs.map (·.2)).sum
+
+/-- the holders' balances added up (each holder once) -/
+def holdersSum (bs : List Entry) : Nat := (((bs.map (·.1)).eraseDups).map (store bs)).sum
+
+/-- InitGenesis since 5f6d79f refuses a repeated address (`strict`); before, everything was taken -/
+def accepts (strict : Bool) (bs : List Entry) : Bool := !strict || decide ((bs.map (·.1)).Nodup)
+
+theorem store_cons_of_mem (e : Entry) (rest : List Entry) (a : Nat) (h : a ∈ rest.map (·.1)) :
+    store (e :: rest) a = store rest a := by
+  have : rest.any (·.1 == a) = true := by
+    simp only [List.any_eq_true, beq_iff_eq]
+    simpa [List.mem_map] using h
+  simp [store, this]
+
+theorem store_cons_self (e : Entry) (rest : List Entry) (h : e.1 ∉ rest.map (·.1)) :
+    store (e :: rest) e.1 = e.2 := by
+  have : rest.any (·.1 == e.1) = false := by
+    cases hh : rest.any (·.1 == e.1) with
+    | false => rfl
+    | true =>
+      simp only [List.any_eq_true, beq_iff_eq] at hh
+      exact absurd (by simpa [List.mem_map] using hh) h
+  simp [store, this]
+
+theorem sum_over_keys (bs : List Entry) (h : (bs.map (·.1)).Nodup) :
+    ((bs.map (·.1)).map (store bs)).sum = total bs := by
+  induction bs with
+  | nil => rfl
+  | cons e rest ih =>
+    simp only [List.map_cons, List.nodup_cons] at h
+    have hrest : (rest.map (·.1)).map (store (e :: rest)) = (rest.map (·.1)).map (store rest) :=
+      List.map_congr_left (fun a ha => store_cons_of_mem e rest a ha)
+    simp only [List.map_cons, List.sum_cons, total, store_cons_self e rest h.1, hrest]
+    have := ih h.2
+    simp only [total] at this
+    omega
+
+theorem eraseDups_of_nodup (l : List Nat) (h : l.Nodup) : l.eraseDups = l := by
+  induction l with
+  | nil => rfl
+  | cons a as ih =>
+    simp only [List.nodup_cons] at h
+    have hf : as.filter (fun b => !b == a) = as := by
+      rw [List.filter_eq_self]
+      intro b hb
+      have : b ≠ a := fun e => h.1 (e ▸ hb)
+      simp [this]
+    rw [List.eraseDups_cons, hf, ih h.2]
+
+/-- **C12, genesis.** A DAO genesis that InitGenesis accepts leaves books that add up: the holders' balances sum to the
+    recorded total. -/
+theorem accepted_genesis_adds_up (bs : List Entry) (h : accepts true bs = true) : holdersSum bs = total bs := by
+  have hn : (bs.map (·.1)).Nodup := by simpa [accepts] using h
+  unfold holdersSum
+  rw [eraseDups_of_nodup _ hn]
+  exact sum_over_keys bs hn
+
+/-- before 5f6d79f: the genesis listing address 1 twice with 100 each was accepted; the holder has 100, the recorded total is
+    200; now it is refused -/
+theorem repeated_address_counterexample :
+    accepts false [(1, 100), (1, 100)] = true ∧ holdersSum [(1, 100), (1, 100)] = 100 ∧ total [(1, 100), (1, 100)] = 200 ∧
+    accepts true [(1, 100), (1, 100)] = false := by decide
+
+/-- the premise is satisfiable -/
+example : accepts true [(1, 100), (2, 5)] = true ∧ holdersSum [(1, 100), (2, 5)] = 105 := by decide
+
+/-- the code's side of `accepts true`: InitGenesis refuses a repeated address (regenerated from x/ucdao/keeper/genesis.go) -/
+theorem genesis_refuses_repeated_address : Haqq.Facts.daoGenesisRepeatedAddress = "refused" := by decide
+
+end Haqq.DaoGenesis
+
